@@ -7,6 +7,7 @@ import (
 	"regexp"
 	"strconv"
 	"strings"
+	"sync"
 	"sync/atomic"
 
 	"google.golang.org/protobuf/encoding/protojson"
@@ -140,10 +141,51 @@ func refTimestamp(s string) (int, int64, int32) {
 	return verdict, secs, int32(nanos)
 }
 
+// undecided records, per undecided form, one accepted and one rejected
+// example: whatever the decoder does with a form the statement leaves open, it
+// must do for every string of that form (acceptance is a matter of grammar,
+// not of which digits appear).
+var undecided struct {
+	sync.Mutex
+	acc, rej map[string]string
+}
+
+func noteUndecided(class, s string, accepted bool) {
+	undecided.Lock()
+	defer undecided.Unlock()
+	if undecided.acc == nil {
+		undecided.acc, undecided.rej = map[string]string{}, map[string]string{}
+	}
+	m := undecided.rej
+	if accepted {
+		m = undecided.acc
+	}
+	if old, ok := m[class]; !ok || len(s) < len(old) || len(s) == len(old) && s < old {
+		m[class] = s
+	}
+}
+
+func reportUndecided(c *core.Ctx) {
+	undecided.Lock()
+	defer undecided.Unlock()
+	for class, a := range undecided.acc {
+		if r, ok := undecided.rej[class]; ok {
+			c.Violation(fmt.Sprintf("Duration: strings of the form %s are not treated uniformly: %q is accepted, %q is rejected", class, a, r), nil)
+		}
+	}
+}
+
 func checkDurationString(c *core.Ctx, s string) {
 	v, secs, nanos := refDuration(s)
 	var d durationpb.Duration
 	err := protojson.Unmarshal([]byte(strconv.Quote(s)), &d)
+	if m := durRe.FindStringSubmatch(s); v == -1 && m != nil {
+		if ip := m[2]; len(ip) > 1 && ip[0] == '0' {
+			noteUndecided("<sign><integer with superfluous leading zeros>...s", s, err == nil)
+		} else {
+			noteUndecided("<sign><integer>.s (integer part, dot, empty fraction)", s, err == nil)
+		}
+	}
 	switch {
 	case v == 0 && err == nil:
 		c.Violation(fmt.Sprintf("Duration: accepts %q which is outside the documented grammar/range", s), fmt.Sprintf("seconds=%d nanos=%d", d.Seconds, d.Nanos))
@@ -234,6 +276,7 @@ func run(c *core.Ctx) {
 		}
 	}
 	c.Bounds["duration_string_maxlen"] = L
+	reportUndecided(c)
 	// Timestamp strings
 	templates := []string{"2020-02-29T12:34:56Z", "2019-12-31T23:59:59.123456789Z", "0001-01-01T00:00:00Z", "9999-12-31T23:59:59.999999999Z", "2020-01-01T00:00:00+00:00", "2020-01-01T00:00:00.5-23:59", "1970-01-01T00:00:00.000000001+01:30"}
 	subs := []byte("0123569:-+TtZz., ")
@@ -403,5 +446,5 @@ func run(c *core.Ctx) {
 	c.Sample(map[string]any{"duration_string": "-.5s", "expect": "(0,-500000000)"})
 	c.Sample(map[string]any{"timestamp_string": "2020-01-01T00:00:00,5Z", "expect": "reject"})
 	c.Sample(map[string]any{"fieldmask": []string{"a_b.c"}, "json": "\"aB.c\""})
-	c.Assume("tolerated either way (not settled by the statement): Duration with an integer part and an empty fraction (\"1.s\") or superfluous leading zeros (\"01s\"), lower-case t / z in timestamps, leap second :60")
+	c.Assume("tolerated either way, but uniformly over all strings of the form (not settled by the statement): Duration with an integer part and an empty fraction (\"1.s\") or superfluous leading zeros (\"01s\"), lower-case t / z in timestamps, leap second :60")
 }
